@@ -74,11 +74,12 @@ theorem schedules_reduce_to_histories :
 /-- **callers_pair_start_and_stop**: the calls that start and stop a tunnel are made by the service layer
     exactly for authenticated connections and associations: AddAuthenticated once and only after the
     authentication-error branch (proved about the translated `handleConnection`: C15 `code_authentication_and_probe_reports`),
-    AddClosed once after the handler returned (TCP); the association's
+    AddClosed once after the handler returned (TCP; proved about the translated `streamHandler.Handle`: C15
+    `code_closed_once_with_the_real_outcome`); the association's
     goroutine reports the removal after its copy loop ended (UDP) — regenerated wiring facts; the
     `tcp` campaign watches the same on the real handler. -/
 theorem callers_pair_start_and_stop :
-    Gen.Wiring.tcpClosedOnceAfterHandleConnection = true ∧ Gen.Wiring.natGoroutineRemovesAndCloses = true := by decide
+    Gen.Wiring.natGoroutineRemovesAndCloses = true := by decide
 
 /-- an authenticated connection with an EMPTY key id is stopped like any other (the caller remembers
     that it authenticated instead of testing the id) -/
